@@ -4,7 +4,7 @@ each check of the listed properties has to exit 0 (or 2, undecided) on the patch
 import json, os, shutil, subprocess, sys, time
 HERE = os.path.dirname(os.path.abspath(__file__)); VERIF = os.path.dirname(HERE)
 args = [a for a in sys.argv[1:] if not a.startswith("--")]
-PROPS = {"B1": ["C12", "C11", "C17", "C19"], "B2": ["C05", "C14", "C17"], "B3": ["C14", "C19", "C12", "C17"], "B4": ["C05", "C17", "C19", "C12"], "B5": ["C12", "C17", "C14", "C19"], "B6": ["C16", "C19", "C17"]}
+PROPS = {"B1": ["C12", "C11", "C17", "C19"], "B2": ["C05", "C14", "C17"], "B3": ["C14", "C19", "C12", "C17"], "B4": ["C05", "C17", "C19", "C12"], "B5": ["C12", "C17", "C14", "C19"], "B6": ["C16", "C19", "C17"], "B7": ["C16", "C07", "C17"]}
 def sh(cmd, cwd=None, env=None): return subprocess.run(cmd, shell=True, cwd=cwd, env=env, capture_output=True, text=True)
 bad = 0
 for name in sorted(os.listdir(VERIF + "/benign")):
